@@ -237,7 +237,15 @@ func decodeConfigFile(data []byte) (configData, error) {
 	if err := json.Unmarshal(data, &f); err != nil {
 		return configData{}, fmt.Errorf("decode failed: %v", err)
 	}
-	for addr, ac := range f.Auths {
+	// Visit the entries in a fixed order, so that when several of them
+	// are at fault it is always the same one that is reported.
+	addrs := make([]string, 0, len(f.Auths))
+	for addr := range f.Auths {
+		addrs = append(addrs, addr)
+	}
+	slices.Sort(addrs)
+	for _, addr := range addrs {
+		ac := f.Auths[addr]
 		if ac.Auth != "" {
 			var err error
 			ac.Username, ac.Password, err = decodeAuth(ac.Auth)
